@@ -336,6 +336,10 @@ impl Sparse<f64> {
         else {
             panic!( "Sparse matrix solve_bicg: itol must be 1 or 2." );
         }
+        // Initial residual test, as in the other solvers: an exact initial guess or a zero
+        // right-hand side must not reach the 0/0 of the first step ( z = M^-1 r here )
+        let bnrm = if bnrm == 0.0 { 1.0 } else { bnrm };
+        if z.norm_2() / bnrm <= tol { return Ok( 0 ); }
         let mut rho_2 = 1.0;
         let mut iter: usize = 0;
         while iter < max_iter {
